@@ -127,6 +127,12 @@ class Run:
                             which, si, used, sorted(live.items())))
 
 
+def ctrl_obs(s, op, rebuilt):
+    return {'op': op, 'client': s.client_id, 'sw': s._status_watcher._max_logins, 'rebuilt': rebuilt,
+            'params': {w: [getattr(s, ATTR[w]).size, getattr(s, ATTR[w]).pos - getattr(s, ATTR[w]).addr_offset,
+                           getattr(s, ATTR[w]).addr_offset] for w in KINDS}}
+
+
 def is_int(x):
     return type(x) is int
 
@@ -143,7 +149,7 @@ def run_case(servers, c):
     run = Run(servers)
     run.attach(0)
     run.attach(1)
-    res = {'client_id': s.client_id, 'first_private_bus': s.options.first_private_bus(), 'errors': [], 'node': [], 'setclient': []}
+    res = {'client_id': s.client_id, 'first_private_bus': s.options.first_private_bus(), 'errors': [], 'node': [], 'ctrl': [ctrl_obs(s, None, True)]}
     objs = []            # (kind, obj, server idx, allocated start or None, explicit)
     cls = {'A': (AudioBus, 'audio'), 'C': (ControlBus, 'control')}
     for op in c['ops']:
@@ -242,21 +248,22 @@ def run_case(servers, c):
                                     'mask': s._node_allocator._mask, 'temp': s._node_allocator._temp,
                                     'id_offset': s._node_allocator.id_offset()})
                 run.expect(what, run.calls == [], 'node ids reached a bus/buffer allocator: %s' % (run.calls,))
-            elif kind == 'R':
+            elif kind in ('R', 'O', 'L'):
                 before = [getattr(s, ATTR[w]) for w in KINDS] + [s._node_allocator]
-                c0 = s.client_id
-                osnap = {f: getattr(s.options, f) for f in OPT_FIELDS}
-                s._set_client_id(op[1])
+                if kind == 'R':
+                    s._set_client_id(op[1])
+                elif kind == 'O':
+                    for f, v in op[1].items():
+                        setattr(s.options, f, v)    # the user changes options; nothing is rebuilt until _set_client_id
+                else:                               # the server's reply to /notify: granted id, reported login count
+                    s._status_watcher._handle_login_done(op[1], op[2])
                 after = [getattr(s, ATTR[w]) for w in KINDS] + [s._node_allocator]
                 rebuilt = [x is not y for x, y in zip(before, after)]
                 run.expect(what, all(rebuilt) or not any(rebuilt), 'only some allocators were re-created: %s' % (rebuilt,))
-                res['setclient'].append({'opts': osnap, 'c0': c0, 'v': op[1], 'c1': s.client_id, 'rebuilt': all(rebuilt)})
                 if all(rebuilt):
                     run.attach(0)        # new allocators: new segments; the objects created so far are stale
+                res['ctrl'].append(ctrl_obs(s, op, all(rebuilt)))
                 res['client_id'] = s.client_id
-            elif kind == 'O':
-                for f, v in op[1].items():
-                    setattr(s.options, f, v)    # the user changes options; nothing is rebuilt until _set_client_id
             elif kind == 'D':
                 Server.default = servers[1]
                 try:
